@@ -22,7 +22,7 @@ import dump_sites  # noqa: E402
 PID = "C16"
 GEN_GROUPS = ["SiteLim", "Sites"]
 TARGETS = ["coq/Props/C16.vo", "coq/Model/Sites.vo"]
-CASES = {"quick": 190, "thorough": 3820}   # 12 prelude cases + 36 configurations x 4 / 100 interleaved rounds
+CASES = {"quick": 190, "thorough": 3820}   # prelude cases + dumped configurations x 4 / 100 interleaved rounds (see notes/C16.md)
 SHARD = 18
 CORR_HEADER = ("From Coq Require Import String ZArith QArith List Bool.\n"
                "From ACN Require Import Base.Num Model.Feasible Gen.Sites Model.Sites.\nImport ListNotations.\n"
